@@ -9,13 +9,14 @@ GEN: list = []
 RULE = (
     "scenario = universe (3-6 file contents incl. the empty one, 1-4 flat listings sharing files and repeating a "
     "file under several paths, per-scenario salt) x source (complete / a listed file missing / a corrupt file object) "
-    "x closed initial destination (empty / some files / whole directories) x closed request (all directories with all "
+    "(a source index, real or no-op, when a listed file is lost = fetch direction: the source-side status then counts "
+    "it present and its upload raises FileNotFoundError) x closed initial destination (empty / some files / whole directories) x closed request (all directories with all "
     "their files, shallow; or directories (+files) expanded) x verify x cache_odb x source class; the would-be uploads "
     "are observed by a fault-free run, then for a fail set F (thorough: every subset when <=5 uploads, else singles of "
     "shared files + random subsets; quick: a seeded sample that always contains a shared-file single) and a "
     "configuration (destination class x destination index): fault-free round, faulty round, fault-free retry on the "
     "result, and one crash round per abort point n=1..attempts of the faulty round, each on a fresh copy of the "
-    "initial destination; the closure audit runs after every upload attempt and at the end of every round. A "
+    "initial destination; plus scenarios where listed source files vanish between the status phase and the uploads; the closure audit runs after every upload attempt and at the end of every round. A "
     "scenario is non-trivial when an upload happened and a failure, crash, verification drop, file missing on both "
     "sides or pre-populated destination is involved."
 )
@@ -33,7 +34,9 @@ ASSUMPTIONS = [
 
 
 def _configs(ctx):
-    allc = [(cls, dix) for cls in ("local", "base") for dix in (False, True)]
+    # destination class x destination index (none / real; a quarter of the indexed ones use the no-op class)
+    allc = [(cls, ("noop" if dix and ctx.rng.random() < 0.25 else dix))
+            for cls in ("local", "base") for dix in (False, True)]
     if ctx.tier == "thorough":
         return allc
     return [ctx.rng.choice(allc)]
@@ -48,7 +51,8 @@ def _judge_and_register(ctx, S, notes, items):
         ctx.count(n)
     for f in feats:
         ctx.count("feature:" + f)
-    ctx.count("class:" + case["dst_cls"] + ("+index" if case["dix"] else ""))
+    ctx.count("class:" + case["dst_cls"] + ("+index" + ("(noop)" if case["dix"] == "noop" else "") if case["dix"] else "")
+              + ("+srcindex" + ("(noop)" if case["six"] == "noop" else "") if case["six"] else ""))
     ctx.count("mode:" + ("shallow" if case["shallow"] else "expand") + ("/verify" if case["verify"] else ""))
     ctx.count("rounds", len(S.rounds))
     ctx.count("crash-rounds", sum(1 for ob in S.rounds if ob["crash"] is not None))
@@ -104,6 +108,28 @@ def run(ctx):
                     if any(f in shared for f in F):
                         ctx.count("fails:shared-file")
                 ctx.count("fails:%d" % len(F))
+                S = TC.run_scenario(ctx, case, crash_all=True)
+                try:
+                    n_problems += len(_judge_and_register(ctx, S, notes, items))
+                finally:
+                    S.close()
+        # a source file object vanishes between the status phase and the uploads (concurrent gc of
+        # the source): its upload fails, its directories must be withheld and reported failed
+        listed = {f for lst in base["dirs"].values() for _, f in lst}
+        file_ups = [u for u in uploads if not u.endswith(".dir")]
+        if file_ups and (ctx.tier == "thorough" or ctx.rng.random() < 0.5):
+            pool = [u for u in file_ups if u in listed] or file_ups
+            V = sorted(ctx.rng.sample(pool, min(len(pool), ctx.rng.choice([1, 1, 2]))))
+            for cls, dix in _configs(ctx):
+                case = copy.deepcopy(base)
+                case["dst_cls"] = cls
+                case["dix"] = dix
+                first = {"fails": [], "vanish": V, "crash": None, "reset": True}
+                others = [u for u in uploads if u not in V]
+                if others and ctx.rng.random() < 0.3:
+                    first["fails"] = [ctx.rng.choice(others)]
+                case["rounds"] = [first, {"fails": [], "crash": None, "reset": False}]
+                ctx.count("fault:vanish")
                 S = TC.run_scenario(ctx, case, crash_all=True)
                 try:
                     n_problems += len(_judge_and_register(ctx, S, notes, items))
